@@ -30,6 +30,8 @@ TOKEN_READERS = ["selection::read_function_name", "extractor::ExtractFromInput::
 
 
 def run(ctx, rep):
+    from rules import c11 as _c11
+    _c11.get_pure(rep, ctx.lib)
     lib = ctx.lib
     cg = ctx.cg
     # ------------------------------------------------------------ ONE-READER
